@@ -4,10 +4,10 @@ Copies a verified seeded change from /tmp/mutout/<PROP>/ into /verif/seeded/<PRO
 import argparse, json, os, shutil, sys
 ap = argparse.ArgumentParser()
 ap.add_argument("prop"); ap.add_argument("i"); ap.add_argument("needs")
-ap.add_argument("--caught", default=""); ap.add_argument("--missed", default=""); ap.add_argument("--evals", default=""); ap.add_argument("--history", default="")
+ap.add_argument("--caught", default=""); ap.add_argument("--missed", default=""); ap.add_argument("--evals", default=""); ap.add_argument("--history", default=""); ap.add_argument("--src", default="/tmp/mutout"); ap.add_argument("--round", default="")
 a = ap.parse_args()
-src = "/tmp/mutout/%s" % a.prop
-dst = os.path.join(os.path.dirname(os.path.dirname(os.path.abspath(__file__))), "seeded", "%s-%s" % (a.prop, a.i))
+src = "%s/%s" % (a.src, a.prop)
+dst = os.path.join(os.path.dirname(os.path.dirname(os.path.abspath(__file__))), "seeded", "%s-%s%s" % (a.prop, ("r%s-" % a.round) if a.round else "", a.i))
 os.makedirs(dst, exist_ok=True)
 pre = "extra_" if not os.path.exists("%s/change%s.diff" % (src, a.i)) else ""
 shutil.copy("%s/%schange%s.diff" % (src, pre, a.i), dst + "/patch.diff")
@@ -24,7 +24,7 @@ for f in ["%s/eval%s.json" % (src, a.i), "%s/eval%sb.json" % (src, a.i)] + [x fo
                 ran[k] = v
         for k, v in d.get("checks", {}).items():
             ran.setdefault("checks", {})[k] = {"exit": v["exit"], "signatures": v["signatures"][:3], "wall_s": v["wall_s"]}
-meta = {"property": a.prop, "needs": a.needs, "origin": "sub-agent given only the property text and a scratch worktree (task: /tmp/mutout/%s/task.md)" % a.prop,
+meta = {"property": a.prop, "needs": a.needs, "origin": "sub-agent given only the property text and a scratch worktree (task: %s/%s/task.md)" % (a.src, a.prop),
         "what_i_ran": {"tool": "tools/eval_seeded.py (scratch worktree outside /repo and /verif; demo on clean tree; git apply / patch; baseline; demo; quick check with VERIF_REPO)",
                        "results": ran},
         "caught_by": [c for c in a.caught.split(",") if c], "missed_reason": a.missed, "history": a.history}
